@@ -13,6 +13,10 @@ CHECKS = {
    technique="deterministic simulation: seeded search over transport chunkings and end-of-stream/RESET positions of grammar-generated frame strings, judged against an RFC 9114 §7.1 reference segmenter; metamorphic comparison across chunkings",
    text="Seeded simulation of h3's real FrameStream over a simulated receive stream: frame strings from a grammar (all known/HTTP-2/unknown types, all varint forms, right/short/long payloads, truncations; a systematic family of short strings first) are delivered under 1-3 drawn chunkings with FIN, open or overtaking RESET endings; the frames acted on and the terminal outcome must equal an independent RFC 9114 §7.1/§7.2 reference and must not depend on the chunking. Sampling, not proof; end positions and the short-string family are enumerated systematically.",
    note="Trusted: refs::frames / refs::varint (written from the RFC), SimQuic receive path, simexec, the reader task obeying the poll_next/poll_data contract. Assumes transport chunks are non-empty. 0x41 is not generated as a frame type."),
+ "C03": dict(level="exploration", engine="E1", design_ref="DESIGN.md §5 C03",
+   technique="deterministic simulation: seeded search over frame sequences, endings (FIN / RESET at a drawn offset / open), chunkings and task interleavings against real h3 server and client, judged by an RFC 9114 §4.1 reference state machine",
+   text="Real h3 server and client (connection driver, request stream state machine, FrameStream, QPACK) over SimQuic receive a scripted peer's frame sequence (valid sequence plus at most one deviation over the full alphabet incl. DATA(0), unknown frames, control-only frames, PUSH_PROMISE to a server, HTTP/2 types) ending in FIN, RESET at a drawn byte offset or left open, under drawn chunkings, FIN timing, task order and spurious polls; the application follows the documented call pattern and its complete history (message, body bytes, end-of-body, trailers, connection outcome, close code) is compared with the reference state machine. Sampling over seeds, not enumeration.",
+   note="Trusted: the reference state machine in checks/c03.rs (walk), refs::frames/qpack/varint, SimQuic, simexec. Payloads of generated frames are well-formed so that one RFC rule applies. Client-side FIN/PUSH_PROMISE before a response is unconstrained; under RESET only prefix-consistency is required."),
 }
 
 NOT_APPLICABLE = {
